@@ -123,6 +123,48 @@ R.contract(
 )
 
 
+# ------------------------------------------------------------------------------------------------- the conversion is applied to EVERY mapping of the tree - a `properties` mapping is not a schema
+# (transform(): to_json_schema also sees {"pattern": <sub-schema>, "minLength": <sub-schema>, ...}: property NAMES that happen to be keywords). Such a mapping must come out
+# as it went in - and without an exception.
+if "schemathesis.specs.openapi.patterns:update_quantifier" not in R.contracts:
+    R.contract("schemathesis.specs.openapi.patterns:update_quantifier", args={"pattern": Opq("Any"), "min_length": Opq("Any"), "max_length": Opq("Any")}, returns=Str, trusted=True,
+               effects={"quantifier_calls": "ghost('quantifier_calls') + [(pattern, min_length, max_length)]"},
+               note="own contracts / stand-in (pattern surgery); here: what it is CALLED with")
+_SubSchema = lambda t: Const({"type": t})
+R.contract(
+    CV + "update_pattern_in_schema",
+    variant="property-names",
+    prop="C01",
+    args={"schema": DictOf(optional={"pattern": _SubSchema("string"), "minLength": _SubSchema("integer"), "maxLength": _SubSchema("integer"), "name": _SubSchema("string")})},
+    ghost={"quantifier_calls": []},
+    raises=[],
+    ensures={
+        "a_mapping_of_property_names_is_left_alone": "schema == old(dict(schema)) and length(ghost('quantifier_calls')) == 0",
+    },
+    bounded_note="mappings over the property names pattern / minLength / maxLength / name",
+    replayable=False,
+)
+R.contract(
+    CV + "update_pattern_in_schema",
+    variant="string-schema",
+    prop="C01",
+    args={"schema": DictOf(optional={"pattern": Str, "minLength": IntRange(0, None), "maxLength": IntRange(0, None), "type": Const("string")})},
+    ghost={"quantifier_calls": []},
+    raises=[],
+    ensures={
+        # a real string schema: the length bounds are merged into the pattern exactly when there is a (non-empty) pattern and a non-zero bound
+        "bounds_are_merged_only_into_a_real_pattern": "iff(length(ghost('quantifier_calls')) == 1, 'pattern' in old(dict(schema)) and length(old(dict(schema))['pattern']) > 0 and "
+                                                      "(('minLength' in old(dict(schema)) and old(dict(schema))['minLength'] != 0) or ('maxLength' in old(dict(schema)) and old(dict(schema))['maxLength'] != 0))) and "
+                                                      "length(ghost('quantifier_calls')) <= 1",
+        "the_pattern_and_the_declared_bounds_are_what_is_merged": "implies(length(ghost('quantifier_calls')) == 1, ghost('quantifier_calls')[0][0] == old(dict(schema))['pattern'] and "
+                                                                  "same_or_none(ghost('quantifier_calls')[0][1], old(dict(schema)), 'minLength') and same_or_none(ghost('quantifier_calls')[0][2], old(dict(schema)), 'maxLength'))",
+        "without_a_merge_nothing_changes": "implies(length(ghost('quantifier_calls')) == 0, schema == old(dict(schema)))",
+    },
+    replayable=False,
+)
+R.spec_funcs["same_or_none"] = lambda it, got, schema, key: (got is None) if key not in schema else __import__("pyvc.ops", fromlist=["eq"]).eq(got, schema[key])
+
+
 # ------------------------------------------------------------------------------------------------- which keywords of a parameter definition constrain the generated data
 PM = "schemathesis.specs.openapi.parameters:"
 # the validation keywords of a Swagger 2.0 non-body parameter (https://swagger.io/specification/v2/#parameter-object) and of an OpenAPI 3.0 Schema Object
